@@ -10,7 +10,7 @@ def source_field(F):
     if not adt:
         return None, None
     src = [x["name"] for x in adt["variants"][0]["fields"] if x["ty"] == "T"]
-    idx = [x["name"] for x in adt["variants"][0]["fields"] if "Vec<reader::ShapeIndex>" in x["ty"]]
+    idx = [x["name"] for x in adt["variants"][0]["fields"] if x["ty"].startswith("std::option::Option<std::vec::Vec<")]
     return (src[0] if len(src) == 1 else None), (idx[0] if len(idx) == 1 else None)
 
 
